@@ -34,6 +34,7 @@ type vfDisk struct {
 	cowLen  int               // bytes of the backup file that reach the disk when its write is the crash point
 	writes  int               // completed segment writes
 	base    string            // stores base folder: "/d" in the engine, a scratch directory natively
+	failUnder string          // when set, opening a direct-I/O file under this folder fails (a failed drive)
 }
 
 func vfMarshal(h sop.Handle) ([]byte, error) {
@@ -110,6 +111,9 @@ func (d *vfDisk) hasFile(path string) bool {
 }
 
 func (d *vfDisk) Open(ctx context.Context, filename string, flag int, permission os.FileMode) (*os.File, error) {
+	if d.failUnder != "" && len(filename) >= len(d.failUnder) && filename[:len(d.failUnder)] == d.failUnder {
+		return nil, errors.New("vf: drive failure")
+	}
 	if !zzvf.Symbolic() {
 		os.MkdirAll(filepath.Dir(filename), 0o755)
 		return os.OpenFile(filename, flag, 0o644)
